@@ -80,7 +80,7 @@ func c06PlanFor(seed, id uint64) c06BodyPlan {
 func init() {
 	core.Register(&core.Property{
 		ID: "C06",
-		Rule: "whole runs of generated scenario programs: setup registers 0-4 cleanups (each ok / panic / FailNow / Fail / panic(err)) and may fail or panic before, between or after them; every body registers 0-5 cleanups before/after its own failure point (19 behaviours) with faults of their own; endings: limit, duration, cancel from outside, cancel from inside iteration j, cancel from inside setup (with and without a setup fault), setup fault, completion-timeout expiry, a run longer than its completion timeout whose last iterations finish shortly after the end; all trigger modes. " +
+		Rule: "whole runs of generated scenario programs: setup registers 0-4 cleanups (each ok / panic / FailNow / Fail / panic(err)) and may fail or panic before, between or after them; every body registers 0-5 cleanups before/after its own failure point (19 behaviours) with faults of their own; endings: limit, duration, cancel from outside, cancel from inside iteration j, cancel from inside setup (with and without a setup fault), setup fault, completion-timeout expiry, setup cleanups slower than the completion timeout, a run longer than its completion timeout whose last iterations finish shortly after the end; all trigger modes. " +
 			"The event log is checked offline against the lifecycle order. non-trivial = the run had a faulting cleanup, a faulting body with cleanups, or a setup fault; distinct = distinct (mode, ending, setup-fault kind/pos, #setup cleanups, has-faulting-setup-cleanup) classes",
 		Assumptions: []string{"cleanups registered from inside a cleanup are outside the property and are not generated"},
 		Gen: func(tier string, seed uint64) []core.Case {
@@ -89,7 +89,7 @@ func init() {
 			if tier == "thorough" {
 				n = 800
 			}
-			endings := []string{"limit", "limit", "duration", "cancel-out", "cancel-in", "setupfault", "timeout", "cancel-setup", "longrun"}
+			endings := []string{"limit", "limit", "duration", "cancel-out", "cancel-in", "setupfault", "timeout", "cancel-setup", "longrun", "slowteardown"}
 			modes := []string{"users", "constant", "staged", "ramp", "gaussian", "custom", "file", "filespan"}
 			var cs []core.Case
 			for i := 0; i < n; i++ {
@@ -122,8 +122,16 @@ func init() {
 					p.SetupCleanups = append(p.SetupCleanups, f)
 				}
 				p.SetupFaultPos = ns
+				if p.Ending == "slowteardown" && len(p.SetupCleanups) < 2 {
+					p.SetupCleanups = append(p.SetupCleanups, cfPass, 1+r.IntN(5))
+					p.SetupFaultPos = len(p.SetupCleanups)
+				}
 				switch p.Ending {
-				case "limit":
+				case "limit", "slowteardown":
+					if p.Ending == "slowteardown" {
+						// every setup cleanup takes 400 ms, the completion timeout (which is about iterations) is 150 ms
+						p.Spec.CompletionMS = 150
+					}
 					N := uint64(c * (4 + r.IntN(8)))
 					if mode == "filespan" {
 						N = uint64(c * (30 + r.IntN(20)))
@@ -224,6 +232,9 @@ func c06Once(c *core.Case, o *core.Outcome, p c06Params, reg *scenarios.Scenario
 			l.Add("setup.reg", engine.HandleID(t), "", int64(i), "")
 			t.Cleanup(func() {
 				l.Add("setup.cleanup", engine.HandleID(t), "", int64(i), cfNames[kind])
+				if p.Ending == "slowteardown" {
+					time.Sleep(400 * time.Millisecond)
+				}
 				cleanupFault(t, kind)
 			})
 		}
@@ -305,6 +316,10 @@ func c06Once(c *core.Case, o *core.Outcome, p c06Params, reg *scenarios.Scenario
 		return
 	}
 	release()
+	if p.Ending == "slowteardown" {
+		// anything the run left running shows up in the log within this time
+		time.Sleep(time.Duration(400*len(p.SetupCleanups)+200) * time.Millisecond)
+	}
 	// let gated bodies finish so that they do not leak into later cases
 	waitUntil(5*time.Second, func() bool { return inflight.Load() == 0 })
 	evs := l.Events()
